@@ -10,8 +10,8 @@ from harness import zones as Z
 
 ID = "C08"
 BACKENDS = ("py", "rs")
-GEN_MODULES = ("Format", "FormatLocales", "Tables", "Helpers", "Getters")
-MIN_THEOREMS = 40
+GEN_MODULES = ("Format", "FormatLocales", "Tables", "Helpers", "Getters", "Formatter:format", "Formatter:parse", "Formatter:check")
+MIN_THEOREMS = 52
 RULE = ("fmt: every alternative of the _TOKENS token group alone (localized ones in all 27 locales) and random sequences of 1..8 parts "
         "(documented + moment.js-heritage tokens, safe literal separators, [...] escapes, backslash escapes) x datetimes from uniformly "
         "random instants in years 1000..9999 (day/month/year boundaries, noon/midnight, us in {0,1,999,1000,100000,500000,999999,random}) x "
